@@ -49,7 +49,7 @@ func pBool(b bool) pval      { return pval{typ: "BOOLEAN", text: fmt.Sprint(b), 
 func pFloat(t string, pos bool) pval { return pval{typ: "FLOAT", text: t, truth: pos} }
 
 // host function kinds: what the function returns
-var c20FnKinds = []string{"regexp", "foreign", "echo", "int", "string", "bool-false", "null", "void", "float", "array", "hash", "count", "panic", "empty-string", "zero", "negative", "collect", "collect"}
+var c20FnKinds = []string{"regexp", "foreign", "echo", "int", "string", "bool-false", "null", "void", "float", "array", "hash", "count", "panic", "empty-string", "zero", "negative", "collect", "collect", "getvar", "setvar"}
 
 type c20Model struct {
 	// unspecified is set when the script used "nothing" (a void result)
@@ -105,6 +105,20 @@ func (m *c20Model) callResult(kind string, name string, args []pval) (pval, bool
 			parts[i] = a.text
 		}
 		return pval{typ: "ARRAY", text: "[" + strings.Join(parts, ", ") + "]", truth: len(args) > 0}, false
+	case "getvar":
+		// the host function reads a variable of its own evaluator
+		if v, ok := m.vars[c20VarNames[0]]; ok {
+			return v, false
+		}
+		return pNull, false
+	case "setvar":
+		// … or stores one (what it was given, or 9)
+		v := pInt(9)
+		if len(args) > 0 && !args[0].void {
+			v = args[0]
+		}
+		m.vars[c20VarNames[3]] = v
+		return pStr("set"), false
 	case "panic":
 		return pval{}, true
 	}
@@ -552,6 +566,18 @@ func (s *c20Side) addFn(name, kind string, m *c20Model) {
 			return &object.Integer{Value: s.cnt[name]}
 		case "collect":
 			return &object.Array{Elements: args}
+		case "getvar":
+			// a host function that calls back into its own evaluator
+			return s.e.GetVariable(c20VarNames[0])
+		case "setvar":
+			var v object.Object = &object.Integer{Value: 9}
+			if len(args) > 0 {
+				if _, isVoid := args[0].(*object.Void); !isVoid {
+					v = args[0]
+				}
+			}
+			s.e.SetVariable(c20VarNames[3], v)
+			return &object.String{Value: "set"}
 		}
 		// the model's value for this kind, as an engine object
 		tmp := &c20Model{counts: map[string]int64{}}
